@@ -460,7 +460,9 @@ def c05_length(R):
         else:
             R.bad(m, d.node, f"sized op {d.name} has no entry in the width table (new op: classify it)")
     # If and Z3 abstraction
-    ifn = tree.func("claripy/ast/bool.py", "If")
+    from .ast_tables import _canonical_if
+
+    ifn = _canonical_if(tree)
     builds = [c for c in ast.walk(ifn) if isinstance(c, ast.Call) and dotted(c.func) == "ty" and util.kw(c, "length") is not None]
     R.check(
         len(builds) == 1 and ast.unparse(util.kw(builds[0], "length")) in ("args[1].length", "args[2].length"),
